@@ -1,6 +1,10 @@
 (* C17 - An expanded table file reproduces the build-time versions exactly.
    Property theorems only.  Model: Model/Expand.v (table.expandTableFile and the set-up closure it asks
-   for, on classified lines) composed with Model/Setup.v (Eups.setup) for the exact-mode replay.
+   for, on classified lines) composed with Model/Setup.v (Eups.setup) for the exact-mode replay; and
+   Model/ExpandText.v (level A: the TEXT of the table file to the classified lines, the expanded lines to the
+   text that is written) - the clauses restated on text are at the end of this file.
+   Lines naming the product eups (LEups / OEups) are passed, unchanged, to the end of the output and are seen by
+   both readings; they are not setup lines of the model ([setups_of], [pins_of] do not count them).
 
    Notation.  [expand_gen jfix sfix cfix w e top plist force rd ls]: the expansion of the table lines ls of
    product top in world w and environment e, productList plist, raw dependency lists rd; jfix / sfix / cfix
@@ -233,7 +237,8 @@ Example expansion_example :
   option_map (map (fun o => String.string_of_list_ascii (render o)))
              (match expand xworld xenv (lit "top") [] false xraw xlines with Ok out => Some out | Err _ => None end)
   = Some [ "# deps"; "if (type != exact) {"; "setupRequired(b 1.0 [>= 1.0])"; "}"; "envSet(FOO, bar)";
-           "if (type == exact) {"; "setupRequired(b -j 1.0)"; "setupRequired(a -j 2.0)"; "setupRequired(c -j 1.0)";
+           "if (type == exact) {"; "setupRequired(b               -j 1.0)"; "setupRequired(a               -j 2.0)";
+           "setupRequired(c               -j 1.0)";
            "} else {"; "setupRequired(c 1.0 [>= 0.5])"; "setupOptional(d >= 1.0)"; "}" ]%string.
 Proof. vm_compute. reflexivity. Qed.
 
@@ -501,7 +506,8 @@ Example failed_optional_is_not_pinned :
                expand fworld (s_env st') (lit "top") [] false fraw flines = Ok fout) /\
   shown (pins_of fout) = [("a", "1.0", false); ("c", "1.0", false); ("b", "1.0", false)]%string /\
   map (fun o => String.string_of_list_ascii (render o)) fout
-  = [ "if (type == exact) {"; "setupRequired(a -j 1.0)"; "setupRequired(c -j 1.0)"; "setupRequired(b -j 1.0)"; "} else {";
+  = [ "if (type == exact) {"; "setupRequired(a               -j 1.0)"; "setupRequired(c               -j 1.0)";
+      "setupRequired(b               -j 1.0)"; "} else {";
       "setupRequired(a 1.0 [>= 1.0])"; "setupRequired(b 1.0 [>= 1.0])"; "}";
       "envPrepend(TOP_PATH, ${PRODUCT_DIR}/bin)" ]%string.
 Proof. split; [eexists; split|split]; vm_compute; reflexivity. Qed.
@@ -823,3 +829,313 @@ Proof.
     as [_ [st' [R [_ [A B]]]]].
   exists st'. split; [exact R|]. split; [exact A|exact B].
 Qed.
+
+(* ================================================================================================
+   LEVEL A - the clauses on TEXT.
+   Model/ExpandText.v: [classify_text tfix text] reads the text of a table file into the classified lines of
+   Model/Expand.v (the scanner of expandTableFile and the argument loop of its subSetup) or answers [Outside why]
+   for a construct it does not follow (the list is at the head of that file) or [Raises e] where the code raises;
+   [expand_text_gen tfix jfix sfix cfix w e top plist force rd text] is the text expandTableFile writes, white space
+   included (indentation, the pins padded to 15 columns).  tfix selects the repaired (true) or pinned (false) recognition
+   of setup lines (proposed_fixes/C17-setup-line-spelling); [expand_text] is the repaired code.
+   Reading a written text back: [stripped_lines t] its lines without outer white space; [exact_block_of_text t] the
+   lines between  if (type == exact) {  and  } else { ; [exact_text_view t] / [inexact_text_view t] the lines a
+   reader sees with / without type == exact; [other_lines ls] the lines of ls that are neither blank nor comments nor
+   mention a setup command, each without trailing comment and outer blanks; [setup_texts ls] the lines that do
+   mention one; [pin_text o n v] the line  setupRequired(n -j v)  as written.
+   ================================================================================================ *)
+From Eupsv Require Import Model.Rx Model.ExpandText Proofs.ExpandTextLib Proofs.ExpandText Proofs.ExpandTextPin.
+
+(* the text goes through the classified lines: what is written is, line by line and indentation aside, the rendering
+   of what expand_gen returns for them - every theorem above about [out] is a theorem about the written text - and
+   the exact block of the written text holds exactly the pins of [out], in order *)
+Theorem expansion_of_text_factors tf jf sf cf w e top plist force rd text otxt :
+  expand_text_gen tf jf sf cf w e top plist force rd text = Inside otxt ->
+  exists ls out,
+    classify_text tf text = Inside ls /\
+    expand_gen jf sf cf w e top plist force rd ls = Ok out /\
+    stripped_lines otxt = map render out /\
+    exact_block_of_text otxt = map pin_line (pins_of out).
+Proof.
+  intro H. destruct (text_lines _ _ _ _ _ _ _ _ _ _ _ _ H) as [ols [L [_ [_ S]]]].
+  destruct (text_factors _ _ _ _ _ _ _ _ _ _ _ _ L) as [ls [out [C [Ok1 [E [M _]]]]]].
+  exists ls, out. split; [assumption|]. split; [assumption|]. split; [now rewrite S|].
+  unfold exact_block_of_text. rewrite S, M. eapply tpins_all; eauto.
+Qed.
+Print Assumptions expansion_of_text_factors.
+
+(* CLAUSE "never pins a version that was not set up", on text: every line of the exact block of the written text is
+   a line  setupRequired/Optional(n -j v)  whose version was recorded in the environment at expansion time or given
+   in the productList - any graph, any table text inside the grammar, repaired and pinned code alike *)
+Theorem pins_only_setup_versions_text tf jf sf cf w e top plist force rd text otxt p :
+  expand_text_gen tf jf sf cf w e top plist force rd text = Inside otxt ->
+  In p (exact_block_of_text otxt) ->
+  exists o n v, p = pin_text o n v /\ (recorded e n v \/ alookup n plist = Some v).
+Proof.
+  intros H I. destruct (text_lines _ _ _ _ _ _ _ _ _ _ _ _ H) as [ols [L [_ [_ S]]]].
+  unfold exact_block_of_text in I. rewrite S in I. eapply text_pins_sound; eauto.
+Qed.
+Print Assumptions pins_only_setup_versions_text.
+
+(* ... and such a line reads back as what it pins: classifying the written pin line gives the product n, the flag
+   -j and the version v (n, v: non-empty words of ASCII characters other than white space, parentheses, brackets,
+   hash, comma, double quote, not starting with a dash; n is not eups).  This is what lets the replay half
+   (exact_replay_records_pins, exact_reproduces: each pin is a setup action with -j for n, decided at v) speak about
+   the text that was written. *)
+Theorem pin_line_reads_back tf o n v :
+  tokenish n -> tokenish v -> n <> lit "eups" ->
+  has_sub (lit "--external") (pin_text o n v) = false ->
+  classify_line tf (pin_text o n v)
+  = Inside (LSetup {| sl_optional := o; sl_name := n; sl_flags := [lit "-j"]; sl_version := Some v; sl_rest := [];
+                      sl_logical := None; sl_orig := pin_text o n v |}).
+Proof. apply classify_pin. Qed.
+Print Assumptions pin_line_reads_back.
+
+(* CLAUSE "passes lines other than setup commands through unchanged", on text: in both readings of the written text
+   the lines that are neither blank, nor comments, nor setup commands are those of the input text, in order,
+   character for character once the indentation, trailing blanks and a trailing comment are removed (the code
+   strips every line and deletes trailing comments of command lines; nothing else is normalised) *)
+Theorem passes_other_lines_text jf sf cf w e top plist force rd text otxt :
+  expand_text_gen true jf sf cf w e top plist force rd text = Inside otxt ->
+  other_lines (exact_text_view otxt) = other_lines (lines_of text) /\
+  other_lines (inexact_text_view otxt) = other_lines (lines_of text).
+Proof.
+  intro H. destruct (text_lines _ _ _ _ _ _ _ _ _ _ _ _ H) as [ols [L [_ [_ S]]]].
+  unfold exact_text_view, inexact_text_view. rewrite S. split; eapply text_others_pass; eauto.
+Qed.
+Print Assumptions passes_other_lines_text.
+
+(* CLAUSE "keeps the original constraints for inexact mode", on text: the setup lines of the non-exact reading of the
+   written text are, in order, the renderings of rewritten lines each of which carries the constraint of the
+   corresponding setup line of the input text (keeps_inexact_constraints), followed by the lines naming eups,
+   unchanged *)
+Theorem keeps_inexact_constraints_text jf sf cf w e top plist force rd text otxt :
+  expand_text_gen true jf sf cf w e top plist force rd text = Inside otxt ->
+  exists ls rs,
+    classify_text true text = Inside ls /\
+    setup_texts (inexact_text_view otxt) = map render_rline rs ++ eups_in ls /\
+    Forall2 (carries w e plist) (setups_in ls) rs.
+Proof.
+  intro H. destruct (text_lines _ _ _ _ _ _ _ _ _ _ _ _ H) as [ols [L [_ [_ S]]]].
+  destruct (text_keeps_inexact _ _ _ _ _ _ _ _ _ _ _ L) as [ls [C [T F]]]. exists ls, (map (rewrite w e plist) (setups_in ls)).
+  unfold inexact_text_view. rewrite S. auto.
+Qed.
+Print Assumptions keeps_inexact_constraints_text.
+
+(* what the classification lets through: comment lines start with a hash, other lines are neither blank nor generated
+   if-lines nor mention a setup command, setup lines start with the command *)
+Theorem classified_lines_are_well_formed tf text ls :
+  classify_text tf text = Inside ls -> Forall (ok_tline tf) ls.
+Proof. apply classify_lines_ok. Qed.
+Print Assumptions classified_lines_are_well_formed.
+
+(* CLAUSE "exact mode reproduces the build", from the TEXT of the table: exact_reproduces with the expansion given
+   by the text the repaired code writes.  The text determines classified lines ls and output lines out (its stripped
+   lines are the renderings of out, its exact block the pins of out); with the dependency lists covering the
+   closure (lists_cover, about ls) and the later table of top being the exact reading of out, the replay records
+   precisely the build-time versions. *)
+Theorem exact_reproduces_text vcmp vmatch fw cfg rc flavors dl rank vro top version D fuel st0 stb tr force rd text otxt :
+  WF2 (fw_products fw) dl rank -> c_max_depth cfg = None ->
+  wf_db (db_of cfg fw) = true -> (forall n, total_order_on vcmp (names_of (db_of cfg fw) n)) ->
+  select_vro rc (request_opts cfg version) = Ok vro -> mem_entry EKeep vro = false ->
+  conflict_free vcmp vmatch fw cfg rc flavors vro top {| li_version := version; li_expr := None |} D ->
+  nodollar_paths (fw_products fw) (s_env st0) ->
+  (forall m, alookup (setup_var m) (s_env st0) = None) ->
+  request_full vcmp vmatch fw cfg rc flavors fuel st0 top version true false = Ok (Some stb, tr) ->
+  expand_text (fw_products fw) (s_env stb) top [] force rd text = Inside otxt ->
+  exists ls out,
+    classify_text true text = Inside ls /\
+    stripped_lines otxt = map render out /\
+    exact_block_of_text otxt = map pin_line (pins_of out) /\
+    forall w' cfg' interp ptop topv absent fuel' st1,
+      lists_cover fw D top rd ls ->
+      D top = Some topv ->
+      c_max_depth cfg' = None ->
+      find_pv w' top topv = Some ptop ->
+      p_actions ptop = exact_actions interp (exact_view out) ++ map absent_action absent ->
+      (forall t, Forall simple_action (interp t)) ->
+      (forall n v o, In (n, v, o) (pins_of out) ->
+         exists p, find_pv w' n v = Some p /\ Forall quiet_action (p_actions p)) ->
+      sane top -> (forall x, In x (pins_of out) -> sane (pin_name x)) ->
+      NoDup (upper_str top :: map (fun x => upper_str (pin_name x)) (pins_of out)) ->
+      (forall m, alookup (setup_var m) (s_env st1) = None) ->
+      2 <= fuel' ->
+      exists st',
+        setup w' cfg' fuel' st1 (forced_decisions topv (pins_of out) absent) top true 0 false = RDone true st' [] /\
+        alookup (setup_var top) (s_env st') = Some (setup_string cfg' top topv) /\
+        (forall k q, known (fw_products fw) k -> k <> top ->
+           find_setup_product (fw_products fw) (s_env stb) k = Some q ->
+           alookup (setup_var k) (s_env st') = Some (setup_string cfg' k (p_version q))) /\
+        (forall m, alookup (setup_var m) (s_env st') <> None -> upper_str m <> upper_str top ->
+           exists n v, setup_var n = setup_var m /\ recorded (s_env stb) n v /\
+                       alookup (setup_var m) (s_env st') = Some (setup_string cfg' n v)).
+Proof.
+  intros H1 H2 H3 H4 H5 H6 H7 H8 H9 H10 HT.
+  destruct (expansion_of_text_factors _ _ _ _ _ _ _ _ _ _ _ _ HT) as [ls [out [C [E [S P]]]]].
+  exists ls, out. split; [assumption|]. split; [assumption|]. split; [assumption|].
+  intros w' cfg' interp ptop topv absent fuel' st1 H12 H13 H14 H15 H16 H17 H18 H19 H20 H21 H22 H23.
+  exact (proj2 (exact_reproduces vcmp vmatch fw cfg rc flavors dl rank vro top version D fuel st0 stb tr
+                  force rd ls out w' cfg' interp ptop topv absent fuel' st1
+                  H1 H2 H3 H4 H5 H6 H7 H8 H9 H10 E H12 H13 H14 H15 H16 H17 H18 H19 H20 H21 H22 H23)).
+Qed.
+Print Assumptions exact_reproduces_text.
+
+(* ---- examples on text (the world, environment and dependency lists of expansion_example) ---- *)
+Definition nlc : str := [ascii_of_nat 10].
+Definition xtext : str :=
+  lit "# deps" ++ nlc ++ lit "SetupRequired (b)   # why" ++ nlc ++ lit "envSet(FOO, bar)" ++ nlc ++
+  lit "if (flavor == Linux64) {" ++ nlc ++ lit "   setupRequired(c, 1.0 [>= 0.5])" ++ nlc ++ nlc ++ lit "}" ++ nlc ++
+  lit "setupOptional(d >= 1.0)" ++ nlc ++ lit "setupRequired(eups [>= 1.0])" ++ nlc.
+Definition shown_text (v : verdict str) : option string :=
+  match v with Inside t => Some (String.string_of_list_ascii t) | _ => None end.
+
+(* the text as written, white space included: the command name in another case with a blank before the parenthesis
+   and a trailing comment, a comma between the arguments, a brace block (only the first line of a block of other
+   lines moves the indentation level: it stays 0 here and drops below 0 at the closing brace), a blank line at the
+   end of a setup block, a bare relational expression, a line naming eups (moved to the end) *)
+Example text_expansion_example :
+  shown_text (expand_text xworld xenv (lit "top") [] false xraw xtext)
+  = Some "# deps
+if (type != exact) {
+   setupRequired(b 1.0 [>= 1.0])
+}
+envSet(FOO, bar)
+if (flavor == Linux64) {
+if (type != exact) {
+   setupRequired(c 1.0 [>= 0.5])
+}
+}
+if (type == exact) {
+setupRequired(b               -j 1.0)
+setupRequired(a               -j 2.0)
+setupRequired(c               -j 1.0)
+} else {
+setupOptional(d >= 1.0)
+}
+setupRequired(eups [>= 1.0])
+"%string.
+Proof. vm_compute. reflexivity. Qed.
+
+(* the pinned tree recognised setup commands by a narrower pattern than the table reader (Table._read: the name in
+   any case, blanks before the parenthesis, commas between the arguments).  A line spelt SetupRequired(b) was set up
+   by the build but passed over by the expansion: no exact block, b not pinned - and setup --exact from the written
+   table takes whatever version of b the database prefers by then (corpus/C17/setup-line-spelling.json).  Repaired
+   (proposed_fixes/C17-setup-line-spelling): the line is rewritten and b and its dependency a are pinned. *)
+Definition ctext : str := lit "SetupRequired(b)" ++ nlc ++ lit "envSet(FOO, bar)" ++ nlc.
+Example setup_line_spelling_refuted_pinned :
+  shown_text (expand_text_pinned xworld xenv (lit "top") [] false xraw ctext)
+  = Some "SetupRequired(b)
+envSet(FOO, bar)
+"%string /\
+  shown_text (expand_text xworld xenv (lit "top") [] false xraw ctext)
+  = Some "if (type == exact) {
+   setupRequired(b               -j 1.0)
+   setupRequired(a               -j 2.0)
+} else {
+   setupRequired(b 1.0 [>= 1.0])
+}
+envSet(FOO, bar)
+"%string.
+Proof. split; vm_compute; reflexivity. Qed.
+
+(* verdicts, not guesses: text behind a command, a pre-existing exact block, a flag that lacks its argument *)
+Example outside_verdicts :
+  classify_text true (lit "setupRequired(b);" ++ nlc) = Outside XTextAround /\
+  classify_text true (lit "unsetupRequired(b)" ++ nlc) = Outside XTextAround /\
+  classify_text true (lit "if (type == exact) {" ++ nlc) = Outside XExactBlock /\
+  classify_text true (lit "setupRequired(b --external)" ++ nlc) = Outside XExternal /\
+  classify_text true (lit "setupRequired(-j b)" ++ nlc) = Outside XNameNotFirst /\
+  classify_text true (lit "setupRequired(b -f)" ++ nlc) = Raises BadTable.
+Proof. repeat split; vm_compute; reflexivity. Qed.
+
+(* the hypotheses of pin_line_reads_back hold of the pins written above *)
+Example pin_line_reads_back_inhabited :
+  tokenish (lit "b") /\ tokenish (lit "1.0") /\ lit "b" <> lit "eups" /\
+  has_sub (lit "--external") (pin_text false (lit "b") (lit "1.0")) = false /\
+  String.string_of_list_ascii (pin_text false (lit "b") (lit "1.0")) = "setupRequired(b               -j 1.0)"%string.
+Proof. repeat split; try reflexivity; discriminate. Qed.
+
+(* ================================================================================================
+   [lists_cover], the hypothesis of exact_reproduces about the dependency lists, for the lists the dependency walk
+   of C13 returns (Model/DepWalk.v: Table.dependencies with C03's resolver inside, getDependentProducts without
+   topological sort - the model the C13 check compares with the real listings).
+   [walk_lists vcmp vmatch fw cfg rc flavors vro fuel names]: for every (product, version) of names, the listing of
+   the walk from that product on the tables of the composed world fw (one dependency line per setup action, with
+   the version / expression of its line information), under the VRO vro, as (name, optional, depth).
+   ================================================================================================ *)
+From Eupsv Require Import Proofs.ExpandWalk.
+
+(* HYPOTHESES  about the build, those exact_reproduces has already: the database view well formed, the comparator a
+   total order on the declared names, no keep in the VRO, and the second half of conflict_free (every dependency
+   line of every reachable table designates what D assigns, none with -j); fuel above the number of tables.
+   What ties the table TEXT of top to the composed world stays a hypothesis: the setup lines of the classified
+   table ls name the dependency actions of top's table in fw (the two readers of the text - Table._read for the
+   build, the scanner of expandTableFile - see the same commands), none with -j, none naming top; the lists were
+   asked for each such product at the version D assigns (the harness asks for every product that is set up).
+   The walk runs under the VRO of the build. *)
+Theorem lists_cover_of_dependency_walk vcmp vmatch fw cfg rc flavors vro top D fuel names ls topv ptop :
+  wf_db (db_of cfg fw) = true -> (forall n, total_order_on vcmp (names_of (db_of cfg fw) n)) ->
+  mem_entry EKeep vro = false ->
+  (forall n v p, reachN fw top n -> D n = Some v -> find_pv (fw_products fw) n v = Some p ->
+     lines_ok vcmp vmatch fw cfg rc flavors vro D (p_actions p) (SetupFull.lines_of fw p)) ->
+  length (dtables_of fw) < fuel ->
+  D top = Some topv -> find_pv (fw_products fw) top topv = Some ptop ->
+  (forall o x j, In (ASetup o x j) (p_actions ptop) ->
+     x <> top /\ exists s, In (LSetup s) ls /\ sl_name s = x /\ mem_str (lit "-j") (sl_flags s) = false) ->
+  (forall s va, In (LSetup s) ls -> D (sl_name s) = Some va -> In (sl_name s, va) names) ->
+  lists_cover fw D top (walk_lists vcmp vmatch fw cfg rc flavors vro fuel names) ls.
+Proof. intros H1 H2 H3 H4 H5 H6 H7 H8 H9. exact (lists_cover_walk vcmp vmatch fw cfg rc flavors vro top D H1 H2 H3 H4 fuel names ls topv ptop H5 H6 H7 H8 H9). Qed.
+Print Assumptions lists_cover_of_dependency_walk.
+
+(* on the instance of exact_reproduces_inhabited the walk returns the very lists that were written down there (as the
+   real getDependencies reports them), the unresolved implicit product included *)
+Example walk_lists_example :
+  walk_lists vcmp_simple vmatch_simple rfw ex_cfg default_config ex_flavors ex_vro 20
+             [(lit "lib", lit "1.0"); (lit "extra", lit "1.0")] = rraw.
+Proof. vm_compute. reflexivity. Qed.
+
+(* exact_reproduces with the dependency lists computed by the walk: no hypothesis about the lists is left *)
+Theorem exact_reproduces_with_walk vcmp vmatch fw cfg rc flavors dl rank vro top version D fuel st0 stb tr
+                                   force fuelw names ls out w' cfg' interp ptop0 ptop topv absent fuel' st1 :
+  WF2 (fw_products fw) dl rank -> c_max_depth cfg = None ->
+  wf_db (db_of cfg fw) = true -> (forall n, total_order_on vcmp (names_of (db_of cfg fw) n)) ->
+  select_vro rc (request_opts cfg version) = Ok vro -> mem_entry EKeep vro = false ->
+  conflict_free vcmp vmatch fw cfg rc flavors vro top {| li_version := version; li_expr := None |} D ->
+  nodollar_paths (fw_products fw) (s_env st0) ->
+  (forall m, alookup (setup_var m) (s_env st0) = None) ->
+  request_full vcmp vmatch fw cfg rc flavors fuel st0 top version true false = Ok (Some stb, tr) ->
+  expand (fw_products fw) (s_env stb) top [] force (walk_lists vcmp vmatch fw cfg rc flavors vro fuelw names) ls = Ok out ->
+  length (dtables_of fw) < fuelw ->
+  find_pv (fw_products fw) top topv = Some ptop0 ->
+  (forall o x j, In (ASetup o x j) (p_actions ptop0) ->
+     x <> top /\ exists s, In (LSetup s) ls /\ sl_name s = x /\ mem_str (lit "-j") (sl_flags s) = false) ->
+  (forall s va, In (LSetup s) ls -> D (sl_name s) = Some va -> In (sl_name s, va) names) ->
+  D top = Some topv ->
+  c_max_depth cfg' = None ->
+  find_pv w' top topv = Some ptop ->
+  p_actions ptop = exact_actions interp (exact_view out) ++ map absent_action absent ->
+  (forall t, Forall simple_action (interp t)) ->
+  (forall n v o, In (n, v, o) (pins_of out) ->
+     exists p, find_pv w' n v = Some p /\ Forall quiet_action (p_actions p)) ->
+  sane top -> (forall x, In x (pins_of out) -> sane (pin_name x)) ->
+  NoDup (upper_str top :: map (fun x => upper_str (pin_name x)) (pins_of out)) ->
+  (forall m, alookup (setup_var m) (s_env st1) = None) ->
+  2 <= fuel' ->
+  exists st',
+    setup w' cfg' fuel' st1 (forced_decisions topv (pins_of out) absent) top true 0 false = RDone true st' [] /\
+    alookup (setup_var top) (s_env st') = Some (setup_string cfg' top topv) /\
+    (forall k q, known (fw_products fw) k -> k <> top ->
+       find_setup_product (fw_products fw) (s_env stb) k = Some q ->
+       alookup (setup_var k) (s_env st') = Some (setup_string cfg' k (p_version q))) /\
+    (forall m, alookup (setup_var m) (s_env st') <> None -> upper_str m <> upper_str top ->
+       exists n v, setup_var n = setup_var m /\ recorded (s_env stb) n v /\
+                   alookup (setup_var m) (s_env st') = Some (setup_string cfg' n v)).
+Proof.
+  intros H1 H2 H3 H4 H5 H6 H7 H8 H9 H10 H11 Hf Ft Tie Nm H13 H14 H15 H16 H17 H18 H19 H20 H21 H22 H23.
+  assert (H12 : lists_cover fw D top (walk_lists vcmp vmatch fw cfg rc flavors vro fuelw names) ls).
+  { eapply lists_cover_walk; eauto. exact (proj2 H7). }
+  exact (proj2 (exact_reproduces vcmp vmatch fw cfg rc flavors dl rank vro top version D fuel st0 stb tr
+                  force _ ls out w' cfg' interp ptop topv absent fuel' st1
+                  H1 H2 H3 H4 H5 H6 H7 H8 H9 H10 H11 H12 H13 H14 H15 H16 H17 H18 H19 H20 H21 H22 H23)).
+Qed.
+Print Assumptions exact_reproduces_with_walk.
